@@ -1,12 +1,18 @@
 import Ypv.Drv.Codec
+import Ypv.Drv.C12
 import Ypv.Model.Eval
 import Ypv.Spec.Select
 /-! Driver handler: the evaluator model and its specification (C01, C02, C15).
 
-`{"op":"C01.eval","doc":D,"segs":[…],"mt":[[method,haystack,term,answer],…],"attrs":[[text,segs|{"err":e}],…]}`
+`{"op":"C01.eval","doc":D,"segs":[…],"rx":[[pattern,text,true|false|null],…],
+  "mt":[[method,haystack,term,answer],…],"attrs":[[text,segs|{"err":e}],…]}`
 answers `{"req":G,"opt":G,"exists":…,"spec":G,"get":G}` with `G = {"res":[R…],"err":null|class}`.
-The matcher and the reading of search attributes as paths come from the tables in the request
-(computed by the harness with the real `Searches.search_matches` and the real parser). -/
+The matcher is `W1.mtCompare rx orc`: scalar haystacks are compared by the model of
+`Model/Compare.lean` with the regex oracle `rx` (as C12/C07), the table `mt` (real
+`Searches.search_matches` answers) is the oracle `orc` for container haystacks and for the literal
+classes that model fences; a pair that is in neither is out of model.  The reading of search
+attributes as paths comes from the real parser (`attrs`).  KEYWORD_SEARCH segments are evaluated by
+the model (`kwStep`); `"oracle":"table"` switches back to the pure table matcher. -/
 namespace Ypv.Drv.C01
 open Lean (Json)
 open Ypv Ypv.Drv
@@ -29,10 +35,10 @@ def missMarker : Err := .eyaml
 
 abbrev MtTable := List (Method × Node × Str × Except Err Bool)
 
-def mtOfTable (t : MtTable) : Matcher := fun m n term =>
+def mtOfTable (t : MtTable) (miss : Err := missMarker) : Matcher := fun m n term =>
   match t.find? (fun e => e.1 == m && e.2.2.1 == term && e.2.1 == n) with
   | some e => e.2.2.2
-  | none => .error missMarker
+  | none => .error miss
 
 def mtEntryOfJson (j : Json) : Except String (Method × Node × Str × Except Err Bool) := do
   match j with
@@ -89,9 +95,13 @@ def handle (op : String) (j : Json) : Except String Json := do
     let segs ← esegs (← j.getObjVal? "segs")
     let mtT ← (← getArr j "mt").toList.mapM mtEntryOfJson
     let atT ← (← getArr j "attrs").toList.mapM attrEntryOfJson
-    let mt := mtOfTable mtT
-    let dsc := Desc.ofParser mt (parseAttrOfTable atT)
-    let req := Eval.required mt dsc segs (.real (d, Ctx.root))
+    let pureTable := match j.getObjVal? "oracle" with
+      | .ok (.str "table") => true
+      | _ => false
+    let mt : Matcher := if pureTable then mtOfTable mtT
+      else W1.mtCompare (C12.rxOf (C12.rxTable j)) (mtOfTable mtT .outOfModel)
+    let dsc := Desc.ofParser mt d (parseAttrOfTable atT)
+    let req := Eval.required mt dsc d segs (.real (d, Ctx.root))
     let ex : Json ← match Eval.existsQ mt dsc segs d with
       | .ok b => pure (Json.mkObj [("ok", .bool b)])
       | .error e => if e = missMarker then throw "table miss" else pure (Json.mkObj [("err", errToJson e)])
@@ -100,7 +110,7 @@ def handle (op : String) (j : Json) : Except String Json := do
       ("get", ← genToJson (Eval.getRequired mt dsc segs d)),
       ("opt", ← genToJson (Eval.getOptional mt dsc segs d)),
       ("exists", ex),
-      ("spec", ← genToJson (Spec.select mt dsc segs (.real (d, Ctx.root))))])
+      ("spec", ← genToJson (Spec.select mt dsc d segs (.real (d, Ctx.root))))])
   | _ => throw s!"C01: unknown op {op}"
 
 end Ypv.Drv.C01
